@@ -1325,8 +1325,9 @@ func (tb *c04TermBuilder) memAt(fr *c04Frame2, base ssa.Value, field int, b *ssa
 				for site != nil && site.parent != bd.fr {
 					site = site.parent
 				}
-				if site != nil && site.call != nil {
-					return tb.memAt(bd.fr, bd.base, field, site.call.Block(), instrIndex(site.call))
+				if site != nil && site.call != nil && fr.parent != nil && fr.call != nil {
+					// (through the frames in between: each of them may have run other writers before this call)
+					return tb.cellAt(fr.parent, tb.cellOwner(fr, fv), field, fr.call.Block(), instrIndex(fr.call))
 				}
 				// the closure was made by a function that has returned (a factory): the variable holds
 				// what that function left in it
@@ -1373,9 +1374,52 @@ func (tb *c04TermBuilder) memAt(fr *c04Frame2, base ssa.Value, field int, b *ssa
 // the closure's returns, of what the variable holds there. nil: no callee of c
 // sees the variable.
 func (tb *c04TermBuilder) callEffect(fr *c04Frame2, c *ssa.Call, base ssa.Value, field int) *c04T {
+	return tb.callEffectCell(fr, c, tb.cellOwner(fr, base), field)
+}
+
+// c04CellRef names a variable by the frame that declares it.
+type c04CellRef struct {
+	fr   *c04Frame2
+	base ssa.Value
+}
+
+// cellOwner: the declaring frame and local variable a (captured) variable of frame fr stands for.
+func (tb *c04TermBuilder) cellOwner(fr *c04Frame2, base ssa.Value) c04CellRef {
+	for i := 0; i < 8 && fr != nil; i++ {
+		fv, ok := base.(*ssa.FreeVar)
+		if !ok {
+			break
+		}
+		bd, bound := fr.fvBind[fv]
+		if !bound {
+			break
+		}
+		fr, base = bd.fr, bd.base
+	}
+	return c04CellRef{fr, base}
+}
+
+// viewOf: the value under which frame fr sees the variable (the variable itself in its declaring
+// frame, a captured-variable view in a closure), nil if fr has no name for it.
+func (tb *c04TermBuilder) viewOf(fr *c04Frame2, cell c04CellRef) ssa.Value {
+	if fr == cell.fr {
+		return cell.base
+	}
+	for _, fv := range fr.fn.FreeVars {
+		if _, ok := fr.fvBind[fv]; ok && tb.cellOwner(fr, fv) == cell {
+			return fv
+		}
+	}
+	return nil
+}
+
+// callEffectCell: the content of the variable after call c of frame fr, if a callee can change
+// it: a callee that sees the variable, or one that is handed (or holds) function values — a writer
+// may be among them and is then followed where it is called. nil: the call cannot change it.
+func (tb *c04TermBuilder) callEffectCell(fr *c04Frame2, c *ssa.Call, cell c04CellRef, field int) *c04T {
 	// which closures write the variable at all is a fact of the program text: a variable that no
 	// closure writes is not changed by any call
-	writers, escapes := c04CellWriters(tb.cellRoot(fr, base))
+	writers, escapes := c04CellWriters(cell.base)
 	if escapes {
 		return c04Unknown("variable whose address is kept by a closure")
 	}
@@ -1383,44 +1427,80 @@ func (tb *c04TermBuilder) callEffect(fr *c04Frame2, c *ssa.Call, base ssa.Value,
 		return nil
 	}
 	var alts []*c04T
-	handled := map[*ssa.Function]bool{}
 	callees := tb.inlinable(fr, c)
 	for _, callee := range callees {
 		nf := tb.frameFor(fr, c, callee, nil)
-		var view *ssa.FreeVar
-		for _, fv := range callee.FreeVars {
-			if bd, ok := nf.fvBind[fv]; ok && bd.base == base && bd.fr == fr {
-				view = fv
-			}
+		if tb.viewOf(nf, cell) == nil && !c04CallCarriesFuncs(c, []*ssa.Function{callee}) {
+			continue // no name for the variable and no function value that could be a writer
 		}
-		if view == nil {
-			continue
-		}
-		handled[callee] = true
 		for _, rb := range callee.Blocks {
 			if n := len(rb.Instrs); n > 0 {
 				if _, ok := rb.Instrs[n-1].(*ssa.Return); ok {
-					alts = append(alts, tb.MemAt(nf, view, field, rb, n))
+					t := tb.cellAt(nf, cell, field, rb, n)
+					if t.Op == "cycle" {
+						if c04CellIsTime(cell.base, field) {
+							t = &c04T{Op: "muvar", Name: "mem:" + cell.base.Name()}
+						} else {
+							t = c04Unknown("loop-carried value")
+						}
+					}
+					alts = append(alts, t)
 				}
 			}
 		}
 	}
-	// a writer that is not the function called may still run during the call if the call is
-	// handed function values (arguments, or variables the called closure captures), or if the
-	// function called is not known
-	other := false
-	for w := range writers {
-		if !handled[w] {
-			other = true
-		}
-	}
-	if other && len(alts) == 0 {
-		if c04CallCarriesFuncs(c, callees) {
-			return c04Unknown("variable a closure handed to this call may write")
-		}
+	if len(callees) == 0 && c04CallCarriesFuncs(c, nil) {
+		// the function called is not known, or not followed, and is handed function values
+		return c04Unknown("variable a closure handed to this call may write")
 	}
 	if len(alts) == 0 {
 		return nil
+	}
+	return c04Choice(alts)
+}
+
+// cellAt: the content of the variable just before instruction #idx of block b of frame fr, which
+// may have no name for it: then only calls can change it, and at the frame's entry it holds what
+// it held before the call that entered the frame.
+func (tb *c04TermBuilder) cellAt(fr *c04Frame2, cell c04CellRef, field int, b *ssa.BasicBlock, idx int) *c04T {
+	if v := tb.viewOf(fr, cell); v != nil {
+		return tb.memAt(fr, v, field, b, idx)
+	}
+	if idx > len(b.Instrs) {
+		idx = len(b.Instrs)
+	}
+	for k := idx - 1; k >= 0; k-- {
+		if call, ok := b.Instrs[k].(*ssa.Call); ok {
+			if eff := tb.callEffectCell(fr, call, cell, field); eff != nil {
+				return eff
+			}
+		}
+	}
+	if b.Index == 0 || len(b.Preds) == 0 {
+		if fr.parent == nil || fr.call == nil {
+			return c04Unknown("captured variable")
+		}
+		return tb.cellAt(fr.parent, cell, field, fr.call.Block(), instrIndex(fr.call))
+	}
+	key := c04MemKey{cell.base, field, b}
+	busy := tb.memBusyF[fr]
+	if busy == nil {
+		busy = map[c04MemKey]bool{}
+		tb.memBusyF[fr] = busy
+	}
+	if busy[key] {
+		return &c04T{Op: "cycle"}
+	}
+	busy[key] = true
+	var alts []*c04T
+	for _, pb := range b.Preds {
+		if a := tb.cellAt(fr, cell, field, pb, len(pb.Instrs)); a.Op != "cycle" {
+			alts = append(alts, a)
+		}
+	}
+	busy[key] = false
+	if len(alts) == 0 {
+		return &c04T{Op: "cycle"}
 	}
 	return c04Choice(alts)
 }
